@@ -45,8 +45,13 @@ namespace igris
         flat_map &operator=(const flat_map &) = default;
         flat_map &operator=(flat_map &&) = default;
 
-        flat_map(const std::initializer_list<value_type> &init) : storage(init)
+        flat_map(const std::initializer_list<value_type> &init)
         {
+            // through insert(): a key that is listed twice is stored once
+            // (the first value wins, as in std::map)
+            storage.reserve(init.size());
+            for (const value_type &v : init)
+                insert(v);
         }
 
         bool operator==(const flat_map &other) const
